@@ -15,3 +15,132 @@ def ext(n):
             print('REPLAY: VIOLATION-CONFIRMED')
             return
     print('REPLAY: not reproduced')
+
+
+# ---- orientation bookkeeping of edge transforms (contracts/c08_edges.py); the counter-models are real matrices, the replays
+# ---- search random small integer matrices (the identities are polynomial, so a violation shows on almost every input)
+
+def _rand_updim(rng, n, flipped=None):
+    from nutils import transform
+    L = rng.randint(-3, 4, size=(n, n - 1)).astype(float)
+    b = rng.randint(-2, 3, size=n).astype(float)
+    from nutils import types
+    return transform.Updim(types.arraydata(L), types.arraydata(b), bool(rng.randint(0, 2)) if flipped is None else flipped)
+
+
+def _confirm(msg):
+    print(msg)
+    print('REPLAY: VIOLATION-CONFIRMED')
+
+
+def tensor_ext(which, d, m):
+    from nutils import transform
+    rng = numpy.random.RandomState(0)
+    for _ in range(60):
+        e = _rand_updim(rng, d)
+        try:
+            t = transform.TensorEdge1(e, m) if which == 1 else transform.TensorEdge2(m, e)
+            want = numpy.concatenate([e.ext, numpy.zeros(m)]) if which == 1 else numpy.concatenate([numpy.zeros(m), e.ext])
+            woff = numpy.concatenate([e.offset, numpy.zeros(m)]) if which == 1 else numpy.concatenate([numpy.zeros(m), e.offset])
+            bad = t.todims != d + m or t.fromdims != d + m - 1 or numpy.asarray(t.ext).shape != want.shape or abs(numpy.asarray(t.ext) - want).max(initial=0) > 1e-9 or abs(t.offset - woff).max(initial=0) > 1e-9
+            got = numpy.asarray(t.ext).tolist()
+        except Exception as ex:
+            bad, got = True, 'raised %s: %s' % (type(ex).__name__, ex)
+        if bad:
+            return _confirm('TensorEdge%d(factor linear=%s flipped=%s, other dims %d): ext = %s, expected the factor ext %s padded with zeros: %s' % (which, e.linear.tolist(), e.isflipped, m, got, numpy.asarray(e.ext).tolist(), want.tolist()))
+    print('REPLAY: not reproduced')
+
+
+def scaled_ext(n):
+    from nutils import transform
+    rng = numpy.random.RandomState(0)
+    for _ in range(80):
+        e = _rand_updim(rng, n)
+        A = rng.randint(-3, 4, size=(n, n)).astype(float)
+        if abs(numpy.linalg.det(A)) < .5:
+            continue
+        from nutils import types
+        sq = transform.Square(types.arraydata(A), types.arraydata(rng.randint(-2, 3, size=n).astype(float)))
+        try:
+            t = transform.ScaledUpdim(sq, e)
+            lhs, rhs = A.T @ numpy.asarray(t.ext), abs(numpy.linalg.det(A)) * numpy.asarray(e.ext)
+            bad = abs(lhs - rhs).max() > 1e-8 or abs(t.linear - A @ e.linear).max(initial=0) > 1e-9 or abs(t.offset - (A @ e.offset + sq.offset)).max() > 1e-9
+            info = 'A^T ext = %s, |det A| factor ext = %s; offset %s, image of the edge offset %s' % (lhs.tolist(), rhs.tolist(), t.offset.tolist(), (A @ e.offset + sq.offset).tolist())
+        except Exception as ex:
+            bad, info = True, 'raised %s: %s' % (type(ex).__name__, ex)
+        if bad:
+            return _confirm('ScaledUpdim(A=%s (det %g), edge linear=%s flipped=%s): %s' % (A.tolist(), numpy.linalg.det(A), e.linear.tolist(), e.isflipped, info))
+    print('REPLAY: not reproduced')
+
+
+def _family(name):
+    from nutils import element
+    line, tri, tet = element.LineReference(), element.TriangleReference(), element.TetrahedronReference()
+    return {'line': line, 'triangle': tri, 'tetrahedron': tet, 'square': line * line, 'cube': (line * line) * line, 'cube-right-nested': line * (line * line),
+            'triangle x line': tri * line, 'line x triangle': line * tri}[name]
+
+
+def outward(name):
+    ref = _family(name)
+    c = numpy.asarray(ref.vertices, dtype=float).mean(0)
+    nfaces = len(ref.edge_refs)
+    try:
+        edges = ref.edge_transforms
+        if len(edges) != nfaces:
+            return _confirm('%s: %d edge transforms for %d faces' % (name, len(edges), nfaces))
+        for k, e in enumerate(edges):
+            ext = numpy.asarray(e.ext)
+            if ext @ (e.offset - c) <= 0:
+                return _confirm('%s edge %d (%r, linear %s, isflipped %s): ext = %s points INTO the element (ext.(point on edge - centroid) = %g)' % (name, k, e, e.linear.tolist(), e.isflipped, ext.tolist(), ext @ (e.offset - c)))
+            if abs(ext @ e.linear).max(initial=0) > 1e-12:
+                return _confirm('%s edge %d: ext %s not orthogonal to the face %s' % (name, k, ext.tolist(), e.linear.tolist()))
+    except Exception as ex:
+        return _confirm('%s: raised %s: %s' % (name, type(ex).__name__, ex))
+    print('REPLAY: not reproduced')
+
+
+def simplex_edge(n, iedge, inverted):
+    from nutils import transform
+    try:
+        e = transform.SimplexEdge(n, iedge, inverted)
+        verts = numpy.concatenate([numpy.zeros((1, n)), numpy.eye(n)])
+        face = numpy.delete(verts, iedge, axis=0)
+        img = numpy.concatenate([e.offset[None], (e.offset[:, None] + e.linear).T])
+        if img.shape != face.shape or abs(img - face).max(initial=0) > 1e-12:
+            return _confirm('SimplexEdge(%d, %d): maps the reference vertices to %s, expected the face %s' % (n, iedge, img.tolist(), face.tolist()))
+        s = numpy.asarray(e.ext) @ (e.offset - 1 / (n + 1))
+        if (s >= 0) if inverted else (s <= 0):
+            return _confirm('SimplexEdge(%d, %d, inverted=%s): ext = %s, ext.(face point - centroid) = %g has the wrong sign' % (n, iedge, inverted, numpy.asarray(e.ext).tolist(), s))
+    except Exception as ex:
+        return _confirm('SimplexEdge(%d, %d, %s): raised %s: %s' % (n, iedge, inverted, type(ex).__name__, ex))
+    print('REPLAY: not reproduced')
+
+
+def flipped(kind, dims):
+    from nutils import transform
+    rng = numpy.random.RandomState(0)
+    for _ in range(40):
+        try:
+            if kind == 'SimplexEdge':
+                x = transform.SimplexEdge(*dims)
+            else:
+                e = _rand_updim(rng, dims[0])
+                if kind == 'Updim':
+                    x = e
+                elif kind == 'ScaledUpdim':
+                    A = rng.randint(-3, 4, size=(dims[0], dims[0])).astype(float)
+                    if abs(numpy.linalg.det(A)) < .5:
+                        continue
+                    from nutils import types
+                    x = transform.ScaledUpdim(transform.Square(types.arraydata(A), types.arraydata(numpy.zeros(dims[0]))), e)
+                else:
+                    x = transform.TensorEdge1(e, dims[1]) if kind == 'TensorEdge1' else transform.TensorEdge2(dims[1], e)
+            f = x.flipped
+            bad = type(f) != type(x) or f.isflipped == x.isflipped or abs(f.linear - x.linear).max(initial=0) > 0 or abs(f.offset - x.offset).max(initial=0) > 0 \
+                or abs(numpy.asarray(f.ext) + numpy.asarray(x.ext)).max(initial=0) > 1e-12
+            info = 'flipped: %r isflipped %s ext %s' % (f, f.isflipped, numpy.asarray(f.ext).tolist())
+        except Exception as ex:
+            bad, info, x = True, 'raised %s: %s' % (type(ex).__name__, ex), None
+        if bad:
+            return _confirm('%s%r: original %r isflipped %s ext %s; %s' % (kind, tuple(dims), x, getattr(x, 'isflipped', None), numpy.asarray(x.ext).tolist() if x is not None else None, info))
+    print('REPLAY: not reproduced')
